@@ -628,7 +628,7 @@ def stepSess (st : State) (toks : List String) : State × String :=
 
 def showReplErr : Repl.Err → String
   | .invalidTerm => "err:invalid-term" | .invalidStatus => "err:invalid-status" | .noSuchNode => "err:no-such-node"
-  | .notLeader => "err:not-leader" | .timeout => "timeout" | .invalidHead => "err:invalid-head"
+  | .notLeader => "err:not-leader" | .timeout => "timeout" | .invalidHead => "err:invalid-head" | .outOfBounds => "err:out-of-bounds"
 
 def parseHead (t : String) : Option (Int × Int) :=
   match t.splitOn ":" with
